@@ -35,7 +35,7 @@ Proof. intros s c. destruct c; cbn [WriterFacts.target call_dots call_name]; rew
 
 Theorem C01_structure : forall enc0 ver s0 cs orc chunk,
   writer_init enc0 ver = (s0, Ok tt) -> enc_ok enc0 ->
-  Forall call_good cs -> accepted s0 cs -> guesses_ok s0 cs -> oracle_ok orc cs ->
+  Forall call_good cs -> accepted s0 cs -> metas_encoded s0 cs -> guesses_ok s0 cs -> oracle_ok orc cs ->
   0 < chunk -> (Z.of_nat (length (w_out (snd (run_calls s0 cs)))) <= sys_maxsize)%Z ->
   let rs := fst (read_all orc chunk (w_out (snd (run_calls s0 cs)))) in
   snd (read_all orc chunk (w_out (snd (run_calls s0 cs)))) = TEnd /\
@@ -43,8 +43,8 @@ Theorem C01_structure : forall enc0 ver s0 cs orc chunk,
   map (fun r => (r_id r, r_level r, r_type r)) rs = (GenSections.sec_main, 0, B "diffx") :: call_sections s0 cs /\
   Forall (fun r => r_id r = build_id (r_level r) (r_type r)) rs.
 Proof.
-  intros enc0 ver s0 cs orc chunk Hi He Hg Ha Hgs Ho Hc Hs rs. unfold rs.
-  rewrite (C01_round_trip enc0 ver s0 cs orc chunk Hi He Hg Ha Hgs Ho Hc Hs). cbn [fst snd].
+  intros enc0 ver s0 cs orc chunk Hi He Hg Ha Hme Hgs Ho Hc Hs rs. unfold rs.
+  rewrite (C01_round_trip enc0 ver s0 cs orc chunk Hi He Hg Ha Hme Hgs Ho Hc Hs). cbn [fst snd].
   split; [reflexivity|]. split; [cbn [length]; rewrite expected_records_length; reflexivity|].
   split; [cbn [map]; rewrite expected_records_sections; reflexivity|].
   constructor; [reflexivity|].
@@ -103,15 +103,15 @@ Qed.
 
 Theorem C01_content : forall enc0 ver s0 cs orc chunk,
   writer_init enc0 ver = (s0, Ok tt) -> enc_ok enc0 ->
-  Forall call_good cs -> accepted s0 cs -> guesses_ok s0 cs -> oracle_ok orc cs ->
+  Forall call_good cs -> accepted s0 cs -> metas_encoded s0 cs -> guesses_ok s0 cs -> oracle_ok orc cs ->
   0 < chunk -> (Z.of_nat (length (w_out (snd (run_calls s0 cs)))) <= sys_maxsize)%Z ->
   exists r0 rs, fst (read_all orc chunk (w_out (snd (run_calls s0 cs)))) = r0 :: rs /\
                 r_payload r0 = PNone /\ Forall2 content_matches cs (map r_payload rs).
 Proof.
-  intros enc0 ver s0 cs orc chunk Hi He Hg Ha Hgs Ho Hc Hs.
-  rewrite (C01_round_trip enc0 ver s0 cs orc chunk Hi He Hg Ha Hgs Ho Hc Hs). cbn [fst].
+  intros enc0 ver s0 cs orc chunk Hi He Hg Ha Hme Hgs Ho Hc Hs.
+  rewrite (C01_round_trip enc0 ver s0 cs orc chunk Hi He Hg Ha Hme Hgs Ho Hc Hs). cbn [fst].
   exists (main_record enc0 ver), (expected_records s0 1 cs). split; [reflexivity|]. split; [reflexivity|].
-  clear Hi He Hgs Ho Hc Hs. revert Hg Ha. generalize 1%Z as line. generalize s0 as s.
+  clear Hi He Hme Hgs Ho Hc Hs. revert Hg Ha. generalize 1%Z as line. generalize s0 as s.
   induction cs as [|c t IH]; intros s line Hg Ha; [constructor|].
   destruct (accepted_cons _ _ _ Ha) as (s' & Hcall & Ha'). inversion Hg as [|? ? Hgc Hgt]; subst.
   cbn [expected_records map]. constructor; [eapply payload_matches; eauto|].
@@ -206,7 +206,7 @@ Qed.
 
 Theorem C01_options : forall enc0 ver s0 cs orc chunk,
   writer_init enc0 ver = (s0, Ok tt) -> enc_ok enc0 ->
-  Forall call_good cs -> accepted s0 cs -> guesses_ok s0 cs -> oracle_ok orc cs ->
+  Forall call_good cs -> accepted s0 cs -> metas_encoded s0 cs -> guesses_ok s0 cs -> oracle_ok orc cs ->
   0 < chunk -> (Z.of_nat (length (w_out (snd (run_calls s0 cs)))) <= sys_maxsize)%Z ->
   exists r0 rs, fst (read_all orc chunk (w_out (snd (run_calls s0 cs)))) = r0 :: rs /\
     r_opts r0 = expected_opts (main_opts enc0 ver) /\
@@ -218,8 +218,8 @@ Theorem C01_options : forall enc0 ver s0 cs orc chunk,
                          | Some v => Some (rd_val v)
                          end) cs rs.
 Proof.
-  intros enc0 ver s0 cs orc chunk Hi He Hg Ha Hgs Ho Hc Hs.
-  rewrite (C01_round_trip enc0 ver s0 cs orc chunk Hi He Hg Ha Hgs Ho Hc Hs). cbn [fst].
+  intros enc0 ver s0 cs orc chunk Hi He Hg Ha Hme Hgs Ho Hc Hs.
+  rewrite (C01_round_trip enc0 ver s0 cs orc chunk Hi He Hg Ha Hme Hgs Ho Hc Hs). cbn [fst].
   exists (main_record enc0 ver), (expected_records s0 1 cs). split; [reflexivity|]. split; [reflexivity|].
   generalize 1%Z as line. generalize s0 as s. clear.
   induction cs as [|c t IH]; intros s line; [constructor|]. cbn [expected_records]. constructor; [|apply IH].
@@ -284,13 +284,93 @@ Proof.
   destruct (do_call_stack_aligned c s Hne Hst Hc) as [Hne' Hst']. apply IH; assumption.
 Qed.
 
-Theorem C01_round_trip_aligned : forall enc0 ver s0 cs orc chunk,
-  writer_init enc0 ver = (s0, Ok tt) -> enc_aligned enc0 ->
-  Forall call_good cs -> Forall (fun c => enc_aligned (call_enc c)) cs -> accepted s0 cs -> oracle_ok orc cs ->
+(* ------------------------------------------------------------------------------------------------ *)
+(* [metas_encoded]: a writer constructed with an encoding (pydiffx's default is 'utf-8') has one in force at
+   every call, whatever the program                                                                    *)
+
+Definition truthy_stack (s : wstate) : Prop := Forall (fun e => wv_truthy e = true) (w_stack s).
+
+Lemma do_call_stack_truthy : forall c s, w_stack s <> [] -> truthy_stack s ->
+  w_stack (fst (do_call c s)) <> [] /\ truthy_stack (fst (do_call c s)).
+Proof.
+  unfold truthy_stack. intros c s Hne Hst.
+  assert (Hcont : forall name lvl e, 1 <= lvl ->
+            w_stack (fst (new_container_section name lvl e [] s)) <> [] /\
+            Forall (fun e => wv_truthy e = true) (w_stack (fst (new_container_section name lvl e [] s)))).
+  { intros name lvl e Hl. rewrite WriterFacts.ncs_eq by assumption.
+    destruct (validate_section s _) as [[]|err]; [|cbn [fst]; auto].
+    destruct (render_header _ _) as [h|err]; [|cbn [fst]; auto]. cbv zeta. cbn [fst w_stack].
+    split; [discriminate|].
+    pose proof (Forall_skipn (fun e => wv_truthy e = true) (length (w_stack s) - lvl) _ Hst) as Hsk.
+    constructor; [|exact Hsk]. destruct (wv_truthy e) eqn:E; [exact E|].
+    destruct (skipn _ (w_stack s)) as [|x l] eqn:Es; [|inversion Hsk; assumption].
+    exfalso. apply (f_equal (@length _)) in Es. rewrite skipn_length in Es. cbn [length] in Es.
+    assert (1 <= length (w_stack s)) by (destruct (w_stack s); [congruence|cbn; lia]). lia. }
+  destruct c as [e|e|text enc ind le mt|md enc fmt|content dt enc le].
+  - apply Hcont. vm_compute; lia.
+  - apply Hcont. vm_compute; lia.
+  - destruct (do_call _ s) as [s' r] eqn:E. cbn [fst].
+    pose proof (fun H => Encodings.content_call_stack _ _ _ _ H E) as Hs. rewrite Hs by reflexivity. auto.
+  - destruct (do_call _ s) as [s' r] eqn:E. cbn [fst].
+    pose proof (fun H => Encodings.content_call_stack _ _ _ _ H E) as Hs. rewrite Hs by reflexivity. auto.
+  - destruct (do_call _ s) as [s' r] eqn:E. cbn [fst].
+    pose proof (fun H => Encodings.content_call_stack _ _ _ _ H E) as Hs. rewrite Hs by reflexivity. auto.
+Qed.
+
+Lemma meta_enc_truthy : forall c s, w_stack s <> [] -> truthy_stack s -> meta_enc_b s c = true.
+Proof.
+  intros c s Hne Hst. destruct c as [e|e|text enc ind le mt|md enc fmt|content dt enc le]; try reflexivity.
+  cbn [meta_enc_b]. unfold Encodings.w_content_encoding. destruct (wv_truthy enc) eqn:E; cbn [negb andb]; [exact E|].
+  unfold truthy_stack in Hst. destruct (w_stack s) as [|x l]; [congruence|]. inversion Hst; assumption.
+Qed.
+
+Theorem metas_encoded_truthy : forall cs s, w_stack s <> [] -> truthy_stack s -> metas_encoded s cs.
+Proof.
+  induction cs as [|c t IH]; intros s Hne Hst; [exact I|]. cbn [metas_encoded].
+  split; [apply meta_enc_truthy; assumption|].
+  destruct (do_call_stack_truthy c s Hne Hst) as [Hne' Hst']. apply IH; assumption.
+Qed.
+
+Lemma init_stack : forall enc0 ver s0, writer_init enc0 ver = (s0, Ok tt) ->
+  w_stack s0 = [enc0; enc0].
+Proof.
+  intros enc0 ver s0 Hinit. unfold writer_init in Hinit.
+  destruct (in_strset ver GenText.versions) as [[|]|]; try (inversion Hinit; fail).
+  rewrite WriterFacts.ncs_eq in Hinit by (first [discriminate | unfold GenText.writer_level_main; lia]).
+  destruct (validate_section _ _) as [[]|err]; [|inversion Hinit].
+  destruct (render_header _ _) as [h|err]; [|inversion Hinit]. cbv zeta in Hinit.
+  inversion Hinit. cbn [w_stack length Nat.sub skipn hd]. destruct (wv_truthy enc0); reflexivity.
+Qed.
+
+Theorem metas_encoded_init : forall enc0 ver s0 cs,
+  writer_init enc0 ver = (s0, Ok tt) -> wv_truthy enc0 = true -> metas_encoded s0 cs.
+Proof.
+  intros enc0 ver s0 cs Hinit Ht. pose proof (init_stack enc0 ver s0 Hinit) as Hst.
+  apply metas_encoded_truthy; [rewrite Hst; discriminate|]. unfold truthy_stack. rewrite Hst.
+  constructor; [exact Ht|]. constructor; [exact Ht|constructor].
+Qed.
+
+(* the flagship theorem for a writer constructed with an encoding: no hypothesis about write_meta's encodings *)
+Theorem C01_round_trip_encoded : forall enc0 ver s0 cs orc chunk,
+  writer_init enc0 ver = (s0, Ok tt) -> enc_ok enc0 -> wv_truthy enc0 = true ->
+  Forall call_good cs -> accepted s0 cs -> guesses_ok s0 cs -> oracle_ok orc cs ->
   0 < chunk -> (Z.of_nat (length (w_out (snd (run_calls s0 cs)))) <= sys_maxsize)%Z ->
   read_all orc chunk (w_out (snd (run_calls s0 cs))) = (main_record enc0 ver :: expected_records s0 1 cs, TEnd).
 Proof.
-  intros enc0 ver s0 cs orc chunk Hinit He Hg Hal Hacc Horc Hchunk Hsize.
+  intros enc0 ver s0 cs orc chunk Hinit He Ht Hg Hacc Hgs Horc Hchunk Hsize.
+  apply C01_round_trip; try assumption. eapply metas_encoded_init; eauto.
+Qed.
+
+(* [metas_encoded] added (see RoundTrip.C01_round_trip): [enc_aligned] allows None everywhere, and a write_meta
+   with no encoding in force is now accepted and read back as bytes *)
+Theorem C01_round_trip_aligned : forall enc0 ver s0 cs orc chunk,
+  writer_init enc0 ver = (s0, Ok tt) -> enc_aligned enc0 ->
+  Forall call_good cs -> Forall (fun c => enc_aligned (call_enc c)) cs -> accepted s0 cs -> metas_encoded s0 cs ->
+  oracle_ok orc cs ->
+  0 < chunk -> (Z.of_nat (length (w_out (snd (run_calls s0 cs)))) <= sys_maxsize)%Z ->
+  read_all orc chunk (w_out (snd (run_calls s0 cs))) = (main_record enc0 ver :: expected_records s0 1 cs, TEnd).
+Proof.
+  intros enc0 ver s0 cs orc chunk Hinit He Hg Hal Hacc Hme Horc Hchunk Hsize.
   assert (He' : enc_ok enc0).
   { destruct He as [->|(eb & canon & cd & -> & Hlk & _)]; [left; reflexivity|right; eauto]. }
   apply C01_round_trip; try assumption.
@@ -341,12 +421,39 @@ Qed.
 
 Theorem C01_round_trip_mixed : forall enc0 ver s0 cs orc chunk,
   writer_init enc0 ver = (s0, Ok tt) -> enc_ok enc0 ->
-  Forall call_good cs -> guesses_ok s0 (ok_calls s0 cs) -> oracle_ok orc cs ->
+  Forall call_good cs -> metas_encoded s0 (ok_calls s0 cs) -> guesses_ok s0 (ok_calls s0 cs) -> oracle_ok orc cs ->
   0 < chunk -> (Z.of_nat (length (w_out (snd (run_calls s0 cs)))) <= sys_maxsize)%Z ->
   read_all orc chunk (w_out (snd (run_calls s0 cs)))
   = (main_record enc0 ver :: expected_records s0 1 (ok_calls s0 cs), TEnd).
 Proof.
-  intros enc0 ver s0 cs orc chunk Hinit He Hg Hgs Horc Hchunk Hsize.
+  intros enc0 ver s0 cs orc chunk Hinit He Hg Hme Hgs Horc Hchunk Hsize.
   destruct (ok_calls_run cs s0 (WriterFacts.reachable_init _ _ _ Hinit)) as [Hrun Hacc].
   rewrite Hrun in *. apply C01_round_trip; try assumption; apply ok_calls_Forall; assumption.
+Qed.
+
+(* ------------------------------------------------------------------------------------------------ *)
+(* why [metas_encoded] is a hypothesis of C01_round_trip: without it the statement is false of the fixed writer.
+   DiffXWriter(encoding=None); write_meta({'k': 1}): accepted (before the fix: TypeError), the JSON is written as
+   bytes under a header without encoding, the reader yields bytes and asks json.loads about BYTES; an oracle that
+   satisfies [oracle_ok] (it answers for the JSON TEXT) need not answer that question. *)
+Example C01_round_trip_unencoded_refuted :
+  exists enc0 ver s0 cs orc chunk,
+    writer_init enc0 ver = (s0, Ok tt) /\ enc_ok enc0 /\ Forall call_good cs /\ accepted s0 cs /\
+    guesses_ok s0 cs /\ oracle_ok orc cs /\ 0 < chunk /\
+    (Z.of_nat (length (w_out (snd (run_calls s0 cs)))) <= sys_maxsize)%Z /\
+    ~ metas_encoded s0 cs /\
+    read_all orc chunk (w_out (snd (run_calls s0 cs))) <> (main_record enc0 ver :: expected_records s0 1 cs, TEnd).
+Proof.
+  set (j := JObj [(ascii_text (B "k"), JInt 1)]).
+  set (d := match json_dump j with Ok d => d | Err _ => [] end).
+  exists WNone, (WStr (ascii_text (B "1.0"))), (fst (writer_init WNone (WStr (ascii_text (B "1.0"))))),
+         [WriteMeta (WDict j) WNone None], [(oracle_key_text (ascii_text d ++ [10%N]), LoadsOk j)], 96.
+  split; [vm_compute; reflexivity|]. split; [left; reflexivity|].
+  split; [constructor; [split; [left; reflexivity|eexists; reflexivity]|constructor]|].
+  split; [unfold accepted; vm_compute; repeat constructor|].
+  split; [split; [vm_compute; reflexivity|exact I]|].
+  split; [constructor; [|constructor]; intros d0 Hd0; vm_compute in Hd0; injection Hd0 as <-; vm_compute; reflexivity|].
+  split; [lia|]. split; [vm_compute; discriminate|].
+  split; [intros [H _]; vm_compute in H; discriminate H|].
+  vm_compute. discriminate.
 Qed.
